@@ -26,6 +26,7 @@ def run(tier, seed):
             s.flags = f
             s.require_uv = ruv
             pol, a = s.build()
+            a.attachment = (None, "platform", "cross-platform")[(f // 2 + ruv) % 3]        # a client hint: no influence on any reported field
             exp = table_auth(f, ruv)
             il, ml = B.run_case(pol, a, "record" if f % 2 else "dict", "accept" if exp else "reject", f"get flags={f:#04x} uv_required={ruv}")
             if il.startswith("OK"):
